@@ -191,7 +191,7 @@ Definition resolve_finish (ref kind : string) (toks : list string) (s' : st) (da
   match (if String.eqb ref "" then Some data else ptr_get toks data) with
   | None => Failed (set_dfail s' false)
   | Some res => match res with
-                | JObj _ => match norm E res (TNamed kind) with
+                | JObj _ => match norm E false res (TNamed kind) with
                             | ROk v => Done (set_dfail s' false, v)
                             | RErr => Failed (set_dfail s' true)
                             | RUnsup => Unsup
